@@ -451,8 +451,14 @@ def render_trivia(f, rng, mode):
             s = rng.choice([" ", "\t", "\n"]) + (ws() if rng.random() < 0.3 else "")
             if mode == "inner_comments" and rng.random() < 0.3:
                 s += comment() + ws()
-        elif gap in ("doc", "attr"):
-            s = rng.choice(["\n", " ", "\n  "])
+        elif gap == "attr":
+            s = rng.choice(["\n", " ", "\n  ", "\n\n", " \t "])
+        elif gap == "doc":
+            # between a documentation block and its member: any white space, blank lines included,
+            # and (the comment modes) ordinary comments - none of it has interface meaning
+            s = rng.choice(["\n", " ", "\n  ", "\n\n", "\n\n\n  ", "\r\n\r\n", "\t"])
+            if mode in ("level_comments", "inner_comments") and rng.random() < 0.3:
+                s += comment() + rng.choice(["\n", "\n\n", " "])
         elif gap == "level":
             s = ws() if rng.random() < 0.8 or last else ""
             if mode in ("level_comments", "inner_comments") and rng.random() < 0.4:
